@@ -109,6 +109,8 @@ E1 == [impl |-> "soft", tname |-> "rt", fields |-> TFields, id |-> "i1",
 E0 == [impl |-> "soft", tname |-> "rt", fields |-> TFields, id |-> "i1", vals |-> ZeroVals(TFields)]
 Rename(e, f, g) == [e EXCEPT !.fields = [x \in (DOMAIN e.fields \ {f}) \cup {g} |-> IF x = g THEN e.fields[f] ELSE e.fields[x]],
                              !.vals   = [x \in (DOMAIN e.vals \ {f}) \cup {g} |-> IF x = g THEN e.vals[f] ELSE e.vals[x]]]
+DropF(e, f) == [e EXCEPT !.fields = [x \in DOMAIN e.fields \ {f} |-> e.fields[x]],
+                            !.vals   = [x \in DOMAIN e.vals \ {f} |-> e.vals[x]]]
 Rekind(e, f, k, nl) == [e EXCEPT !.fields[f].k = k, !.fields[f].null = nl]
 Recard(e, f, one, ids) == [e EXCEPT !.fields[f].to1 = one, !.vals[f] = Ids(ids)]
 AltVal(e, f) == LET d == e.fields[f] v == e.vals[f] IN
@@ -133,6 +135,8 @@ Variants(e) ==
   \cup { Rekind(e, "s", "int", FALSE) }
   \* the same name as an attribute on one side and as a (to-one, empty) relationship on the other: as many fields in all
   \cup { [e EXCEPT !.fields["s"] = R(TRUE, "tt"), !.vals["s"] = Ids(<<>>)] }
+  \* one field fewer: everything the smaller one has is in the larger one too (Equal must fail in BOTH directions)
+  \cup { DropF(e, f) : f \in DOMAIN e.fields }
   \* the same relationship name with the other cardinality, empty or holding one id
   \cup { Recard(e, "o", FALSE, ids) : ids \in {<<>>, <<"a">>} } \cup { Recard(e, "m", TRUE, ids) : ids \in {<<>>, <<"a">>} }
 EqPairs == { <<a, b>> \in (Variants(E1) \cup Variants(E0)) \X (Variants(E1) \cup Variants(E0)) : TRUE }
